@@ -113,6 +113,19 @@ CHECKS.update({
         ref="5/C20"),
 })
 
+CHECKS.update({
+    "C16": dict(
+        technique="TLA+ byte-level spec of TLVStruct encode/decode (spec/codec/TlvStruct*.tla) model-checked by TLC on generic schemas (FRAG=3 exhaustive, FRAG=255 boundary sizes) and on the schemas of all real classes derived by reflection; TLC-exported cases replayed on the real classes, recorded runs validated by TlvStruct_Trace",
+        text="TLC checks StructRoundTrip/Canonical/OnBoundary for every field kind, 3 nesting levels, lists and packed id lists. For all 26 reflected message classes a covering family (each field alone over 1/254/255/256/510/511 and every enum member, neighbour pairs, all-set, nested encodings swept across the 255/510 boundaries, lists crossing a fragment, ids 0..6) is replayed: encode() must equal the prescribed bytes, decode() must return the value, for library-made and accessory-made messages. Random values, every byte value in linked-service lists and 1..3x1..3x1..3 accessory databases are recorded and accepted by TLC. Known finding (listed): packed Sequence[u16] id lists.",
+        note="Schemas come from the code's own annotations, so a wrong tag is not detected. Float fields are not encodable and are left unset. Empty encode-side values are excluded (DESIGN 4.2). Trusted: TLC, the independent encoder in harness/c16_schema.py plus refacc/tlv.py. Little-endian host.",
+        ref="5/C16"),
+    "C17": dict(
+        technique="TLA+ spec of the BLE request cutter with a conformant accessory, the BLE response reader with faults, and the CoAP batch decoder (spec/codec/Pdu*.tla), model-checked by TLC; exported cases replayed on ble_request/_write_pdu/_read_pdu over a simulated GATT characteristic (plain and ChaCha20-Poly1305) and on the CoAP connection API over a simulated endpoint; all recorded executions validated by Pdu_Trace",
+        text="TLC checks BleFragmentSize, BleReassembly, BleResponse, CoapAttribution exhaustively (fragment sizes 8..64 x bodies 0..200 plus 20/155/244/496/512 x boundary lengths to 5000; every fragmentation of small bodies x every fault position; all batches up to 4 items x 15 variants and 5..6 items x 5 variants). Every case runs on the real code: request writes are judged by the spec's accessory (size bound, counters, reassembly), responses must end as specified, batch results and the read/write/subscribe/unsubscribe mappings must attribute item i to characteristic i with errors not shifting others.",
+        note="Content-independent model; bytes are compared by the harness's independent reader. 'Rejected' means any exception; a per-item error means any non-success status. Trusted: TLC, harness/c17_driver.py, cryptography AEAD. Pairing-level BLE write/read fragmentation is not driven.",
+        ref="5/C17"),
+})
+
 NOT_APPLICABLE = {
     "C02": "Byte-for-byte numeric equality of SRP-6a over a 3072-bit group with SHA-512: no state, schedule or history to model, TLC integers are 32-bit; a TLA+ transcription over a toy group would say nothing about the hard-coded constants. See DESIGN.md section 5/C02.",
 }
